@@ -35,12 +35,38 @@ pub fn quiet_panics() {
             // indexing, ...) carry a location in /rustc/...: attribute them to the first frame
             // that belongs to the code under test or its STARK dependency
             let mut loc = loc;
-            if loc.starts_with("/rustc/") {
+            if loc.starts_with("/rustc/") || (loc.contains("/rustlib/src/rust/library/") && loc.contains("/toolchains/")) {
                 let bt = std::backtrace::Backtrace::force_capture().to_string();
+                if std::env::var("VERIF_DEBUG_BT").is_ok() {
+                    eprintln!("{bt}");
+                }
                 let owner = bt
                     .lines()
                     .filter_map(|l| {
                         let l = l.trim();
+                        // "at <path>:line:col" lines (builds with line tables): the crate is read
+                        // off the path
+                        if let Some(path) = l.strip_prefix("at ") {
+                            if let Some(rest) = path.splitn(2, "/registry/src/").nth(1) {
+                                let dir = rest.split('/').nth(1)?;
+                                // "winter-air-0.8.3" -> "winter_air"
+                                let name: Vec<&str> = dir.split('-').take_while(|p| !p.chars().next().map(|c| c.is_ascii_digit()).unwrap_or(true)).collect();
+                                let name = name.join("_");
+                                if name.starts_with("winter") || name.starts_with("miden") {
+                                    return Some(name);
+                                }
+                                return None;
+                            }
+                            if let Some(rest) = path.strip_prefix("/repo/") {
+                                let c = rest.split('/').next()?;
+                                return Some(match c {
+                                    "core" => "miden_core".to_string(),
+                                    "miden" => "miden_vm".to_string(),
+                                    other => format!("miden_{other}"),
+                                });
+                            }
+                            return None;
+                        }
                         let name = l.splitn(2, ": ").nth(1)?;
                         for k in ["winter_air", "winter_fri", "winter_verifier", "winter_prover", "winter_crypto", "winter_math", "winter_utils", "miden_crypto", "miden_air", "miden_core", "miden_processor", "miden_assembly", "miden_verifier", "miden_prover", "miden_stdlib"] {
                             if name.starts_with(k) || name.starts_with(&format!("<{k}")) || name.contains(&format!(" as {k}")) {
